@@ -551,18 +551,24 @@ PROPS['C02'] = dict(
 )
 
 # ------------------------------------------------------------------------------------------- C17
-_c17 = [
-    H('c17_proj', 'k_c17_proj();', tiers=Q, timeout=2400, mem_gb=8, unwind=3, stubs=_LIBM, inputs=[('lon', 'f64'), ('lat', 'f64')], replay='c17_native',
-      covers=['north cap, negative second turn', 'south pole'],
-      domain='proj: every double lon in [-25.2, 25.2] x lat in [-pi/2, pi/2]: range, sign, image facets'),
-    H('c17_proj_ref', 'k_c17_proj_ref();', tiers=Q, timeout=2400, mem_gb=8, unwind=3, stubs=_LIBM, inputs=[('lon', 'f64'), ('lat', 'f64')], replay='c17_native',
-      covers=['polar clause reached (south)'],
-      domain='proj: same domain: agreement with the reference formulae within 2^-46 (polar caps: cosines with <= 10 significant bits)'),
+_c17 = []
+for reg, rn in ((0, 'npc'), (1, 'eqr'), (2, 'spc')):
+    for neg in (0, 1):
+        sfx = '%s_%s' % (rn, 'neg' if neg else 'pos')
+        _c17.append(H('c17_proj_' + sfx, 'k_c17_proj(%d, %s);' % (reg, 'true' if neg else 'false'), tiers=Q, timeout=2400, mem_gb=6, unwind=3, stubs=_LIBM,
+                      inputs=[('lon', 'f64'), ('lat', 'f64')], replay='c17_native', covers=['second turn', 'pole or equator'] if reg != 1 else ['second turn'],
+                      domain='proj: every double lon %s in [-25.2, 25.2], every lat of the %s region: range, sign, image facets' % ('< 0' if neg else '>= 0', rn)))
+        _c17.append(H('c17_proj_ref_' + sfx, 'k_c17_proj_ref(%d, %s);' % (reg, 'true' if neg else 'false'), tiers=Q if reg == 1 else T, timeout=2400, mem_gb=6, unwind=3,
+                      stubs=_LIBM, inputs=[('lon', 'f64'), ('lat', 'f64')], replay='c17_native', covers=['second turn'] + (['polar product clause reached'] if reg != 1 else []),
+                      domain='proj: same domain: agreement with the reference formulae within 2^-46 (polar caps: y for every position, x for cosines with <= 6 significant bits)'))
+for row in range(4):
+    for q in range(4):
+        _c17.append(H('c17_base_cell_r%d_q%d' % (row, q), 'k_c17_base_cell(%d, %d);' % (row, q), tiers=Q, timeout=2400, mem_gb=6, unwind=3,
+                      inputs=[('x', 'f64'), ('y', 'f64')], replay='c17_base_cell', covers=['negative x', 'facet centre line'],
+                      domain='base_cell_from_proj_coo: every double image point with y in row %d of 4 and x (mod 8) in [%d, %d)' % (row, 2 * q, 2 * q + 2)))
+_c17 += [
     H('c17_unproj', 'k_c17_unproj();', tiers=Q, timeout=2400, mem_gb=8, unwind=3, stubs=_LIBM, inputs=[('x', 'f64'), ('y', 'f64')], replay='c17_native_plane',
       covers=['next to the north pole, negative x', 'south transition'], domain='unproj: every double (x, y) in [-8, 8] x [-2, 2]: range and sign'),
-    H('c17_base_cell', 'k_c17_base_cell();', tiers=Q, timeout=2400, mem_gb=8, unwind=3, inputs=[('x', 'f64'), ('y', 'f64')], replay='c17_base_cell',
-      covers=['north pole', 'corner shared by 4 base cells', 'negative x'],
-      domain='base_cell_from_proj_coo: every double point of the HEALPix image, x in [-8, 8), y in [-2, 2]'),
     H('c17_guard_proj', 'k_c17_guard(0);', tiers=Q, timeout=600, mem_gb=6, should_panic=True, unwind=3, stubs=_LIBM, inputs=[('a', 'f64'), ('b', 'f64')],
       replay='c17_guard', replay_const={'which': 0}, never=['guard bypassed'], domain='proj: every lat outside [-pi/2, pi/2] incl. NaN'),
     H('c17_guard_unproj', 'k_c17_guard(1);', tiers=Q, timeout=600, mem_gb=6, should_panic=True, unwind=3, stubs=_LIBM, inputs=[('a', 'f64'), ('b', 'f64')],
@@ -620,10 +626,11 @@ _c11 = []
 for ns in (1, 2, 3, 4, 5, 6, 7, 8, 13, 100, 1000003, (1 << 29) - 1, 1 << 29):
     small = ns <= 13
     tq = Q if ns in (1, 2, 3, 5) else T
-    _c11.append(H('c11_point_n%d' % ns, 'k_c11_point(%d, 0);' % ns, tiers=tq, timeout=2400, mem_gb=8, unwind=3, stubs=_PLANE_CUT('verif_c11'),
-                  inputs=[('x', 'f64'), ('y', 'f64')], replay='c11_pullback', replay_const={'nside': ns},
-                  covers=['north polar cap', 'transition latitude', 'south cap, last base cell'],
-                  domain='nside %d: every double point of the HEALPix image (x in [-8, 8], y in [-2, 2]) farther than 2^-40 from the polar base-cell seams (open finding F4)' % ns))
+    for band, bn in ((0, 'npc'), (1, 'eqr'), (2, 'spc')):
+        _c11.append(H('c11_point_%s_n%d' % (bn, ns), 'k_c11_point(%d, 0, %d);' % (ns, band), tiers=tq, timeout=2400, mem_gb=8, unwind=3, stubs=_PLANE_CUT('verif_c11'),
+                      inputs=[('x', 'f64'), ('y', 'f64')], replay='c11_pullback', replay_const={'nside': ns},
+                      covers=['last base cell column', 'first base cell column'],
+                      domain='nside %d: every double point of the HEALPix image with y in the %s band, farther than 2^-40 from the polar base-cell seams (open finding F4)' % (ns, bn)))
     if small or ns == 100:
         _c11.append(H('c11_center_n%d' % ns, 'k_c11_center(%d);' % ns, tiers=tq, timeout=2400, mem_gb=8, unwind=3, stubs=_PLANE_CUT('verif_c11'),
                       inputs=[('h', 'u64')], replay='c11_center', replay_const={'nside': ns}, covers=['last cell'],
@@ -631,7 +638,7 @@ for ns in (1, 2, 3, 4, 5, 6, 7, 8, 13, 100, 1000003, (1 << 29) - 1, 1 << 29):
     _c11.append(H('c11_order_n%d' % ns, 'k_c11_order(%d);' % ns, tiers=(tq if small else T), timeout=2400, mem_gb=8, unwind=3,
                   inputs=[('r', 'u64')], replay='c11_order', replay_const={'nside': ns}, covers=['last pair'],
                   domain='nside %d: every pair of consecutive cell numbers' % ns))
-_c11.append(H('c11_seam_witness_n2', 'k_c11_point(2, 1);', tiers=Q, timeout=1200, mem_gb=8, unwind=3, stubs=_PLANE_CUT('verif_c11'),
+_c11.append(H('c11_seam_witness_n2', 'k_c11_point(2, 1, 255);', tiers=Q, timeout=1200, mem_gb=8, unwind=3, stubs=_PLANE_CUT('verif_c11'),
               inputs=[('x', 'f64'), ('y', 'f64')], replay='c11_pullback', replay_const={'nside': 2}, covers=[],
               domain='witness of the open finding F4 (expected to fail): nside 2, image points on / within 2^-40 of a polar base-cell seam'))
 for w in (0, 1, 2, 3):
@@ -665,10 +672,11 @@ for _d in range(30):
                   stubs=_PLANE_CUT_N('verif_c03'), inputs=[('h', 'u64'), ('t', 'usize'), ('cw', 'bool'), ('sk', 'u8')], replay='c03_cell',
                   replay_const={'depth': _d, 'dxk': 512, 'dyk': 512}, covers=['last grid point', 'first path point, clockwise'],
                   domain='depth %d: every cell, every point of the 12-point edge path (both directions, 4 starting vertices) and of the 3x3 grid' % _d))
-    _c03.append(H('c03_image_d%d' % _d, 'k_c03_image(%d);' % _d, tiers=Q if _d in (0, 1, 2) else T, timeout=2400, mem_gb=12, unwind=4, unwindset=_c03_us(_d),
-                  stubs=_PLANE_CUT_N('verif_c03'), inputs=[('x', 'f64'), ('y', 'f64')], replay='c03_pullback', replay_const={'depth': _d},
-                  covers=['north pole', 'on a polar seam', 'x = 8'],
-                  domain='depth %d: every double point of the HEALPix image (x in [0, 8], y in [-2, 2])' % _d))
+    for band, bn in ((0, 'npc'), (1, 'eqr'), (2, 'spc')):
+        _c03.append(H('c03_image_%s_d%d' % (bn, _d), 'k_c03_image(%d, %d);' % (_d, band), tiers=Q if _d in (0, 1, 2) else T, timeout=2400, mem_gb=12, unwind=4,
+                      unwindset=_c03_us(_d), stubs=_PLANE_CUT_N('verif_c03'), inputs=[('x', 'f64'), ('y', 'f64')], replay='c03_pullback', replay_const={'depth': _d},
+                      covers=['x = 4 (seam or base cell corner line)', 'x = 8'],
+                      domain='depth %d: every double point of the HEALPix image (x in [0, 8]) with y in the %s band' % (_d, bn)))
 for w in range(9):
     _c03.append(H('c03_guard_%d' % w, 'k_c03_guard(2, %d);' % w, tiers=Q, timeout=600, mem_gb=6, should_panic=True, unwind=5, stubs=_LIBM,
                   inputs=[('h', 'u64')], replay='c03_guard', replay_const={'depth': 2, 'which': w}, never=['guard bypassed'],
@@ -691,10 +699,14 @@ _c19 = []
 for _d in range(30):
     for reg in (0, 1):
         tq = Q if (_d in (0, 1, 2) and reg == 0) or (_d in (0, 1, 3) and reg == 1) else T
-        _c19.append(H('c19_%s_d%d' % ('any' if reg == 0 else 'corner', _d), 'k_c19_point(%d, %d);' % (_d, reg), tiers=tq, timeout=2400, mem_gb=12,
-                      unwind=4, unwindset={'verif_common::*': max(6, _d + 1), 'nested::verif_c19::*': 10, 'compass_point::*': 10}, stubs=_PLANE_CUT_N('verif_c19'), inputs=[('x', 'f64'), ('y', 'f64')], replay='c19_pullback',
-                      replay_const={'depth': _d}, covers=['north quadrant', 'west quadrant'],
-                      domain='depth %d: every double point of the HEALPix image%s' % (_d, '' if reg == 0 else ' whose cell lacks a S / E / N / W neighbour')))
+        if _d == 29 and reg == 0:
+            tq = Q
+        for band, bn in ((0, 'npc'), (1, 'eqr'), (2, 'spc')):
+            _c19.append(H('c19_%s_%s_d%d' % ('any' if reg == 0 else 'corner', bn, _d), 'k_c19_point(%d, %d, %d);' % (_d, reg, band), tiers=tq, timeout=2400, mem_gb=12,
+                          unwind=4, unwindset={'verif_common::*': max(6, _d + 1), 'nested::verif_c19::*': 10, 'compass_point::*': 10},
+                          stubs=_PLANE_CUT_N('verif_c19'), inputs=[('x', 'f64'), ('y', 'f64')], replay='c19_pullback',
+                          replay_const={'depth': _d}, covers=['north quadrant', 'west quadrant'],
+                          domain='depth %d: every double point of the HEALPix image in the %s band%s' % (_d, bn, '' if reg == 0 else ' whose cell lacks a S / E / N / W neighbour')))
 PROPS['C19'] = dict(
     inject=[dict(host='src/nested/mod.rs', mod='verif_c19', parts=['props/c19.rs', 'kani/c19.rs'])],
     harnesses=_c19, libm=True,
